@@ -91,6 +91,12 @@ def zooRet (kind : Nat) (s rem : List Nat) : RetVal × Nat :=
   | 20 => (.plain, bumpAmt rem)
   | 21 => (.plain, bumpAmt rem)
   | 22 => (.plain, bumpAmt rem)
+  -- an explicit `Err(e)` whose value equals the error type's default (tag 0): still `Err(e.into())`, not the error callback's business
+  | 23 => (if z == 0 then .resErr 0 else .resOk, 0)
+  | 24 => (if z == 0 then .frSkip else if z == 1 then .frErr 0 else .frEmit, 0)
+  -- callbacks that reject every match
+  | 25 => (.optNone, 0)
+  | 26 => (.boolFalse, 0)
   | _ => (.plain, 0)
 
 /-- leaf kinds: 0 = skip leaf, 1 = unit variant, 2 = value variant -/
